@@ -1708,6 +1708,20 @@ int32 parseServerHello(ssl_t *ssl, int32 hsLen, unsigned char **cp,
             psTraceIntInfo("Can't support requested cipher: %d\n", cipher);
             return MATRIXSSL_ERROR;
         }
+        /*
+          The server must select one of the ciphersuites our ClientHello
+          offered, and a TLS 1.3 suite cannot be used with the earlier
+          protocol version negotiated here.
+        */
+        if (ssl->cipher->type == CS_TLS13
+                || !clientOfferedCipherSuite(ssl, cipher))
+        {
+            ssl->cipher = sslGetCipherSpec(ssl, SSL_NULL_WITH_NULL_NULL);
+            ssl->err = SSL_ALERT_ILLEGAL_PARAMETER;
+            psTraceIntInfo("Server chose a cipher we did not offer: %d\n",
+                cipher);
+            return MATRIXSSL_ERROR;
+        }
     }
     matrixSslSetKexFlags(ssl);
 
